@@ -109,7 +109,33 @@ def nested_cases():
             yield dict(kind="nested", prog=cc["prog"], local_subs=cc.get("local_subs", False))
 
 
+def default_param_cases():
+    """values that reach nodes from DAG parameters with defaults: calls that omit them, calls that give them, and an executor run with
+    explicit values followed by a call that relies on the defaults (same DAG object)"""
+    def call(fn, args, out, kwargs=None, flag=None):
+        return {"k": "call", "fn": fn, "args": args, "kwargs": kwargs or {}, "flag": flag, "out": out}
+    X, Y = ["p", "x"], ["p", "y"]
+
+    def v(n, *path):
+        return ["v", n, list(path)]
+    bodies = [
+        ([call("add", [X, Y], "a"), call("inc", [v("a")], "b")], ["tuple", [v("a"), v("b")]]),
+        ([call("inc", [X], "a"), call("add", [v("a")], "b", kwargs={"y": Y})], ["tuple", [v("a"), v("b")]]),
+        ([call("mkd", [Y], "m"), call("add", [X, v("m", "k")], "b")], ["dict", {"m": v("m"), "b": v("b")}]),
+        ([call("inc", [X], "a", flag=Y), call("add", [v("a"), Y], "b")], ["list", [v("a"), v("b"), Y]]),
+    ]
+    for body, ret in bodies:
+        yield dict(kind="nested", defaults=True, local_subs=False,
+                   prog={"name": "main", "params": [["x", "<nodefault>"], ["y", 4]], "body": body, "ret": ret, "subs": []})
+
+
 def run_nested(acc, c):
+    if c.get("defaults"):
+        from ..prog import run_program
+        run_program(acc, {"prog": c["prog"], "kind": "nested", "local_subs": False}, c["prog"], [(0,), (3,), (0, 0), (3, 7)], ["mc1", "mc3"], (False, True),
+                    explore_all=True, tie_budget=0, max_execs=300)
+        acc.mark_nontrivial(("defaults", repr(c["prog"]["body"])[:300]))
+        return
     from ..prog import run_program
     run_program(acc, {"prog": c["prog"], "kind": "nested", "local_subs": c["local_subs"]}, c["prog"], [(0,), (3,)], ["mc3"], (False,), explore_all=True,
                 tie_budget=0, max_execs=300, local_subs=c["local_subs"])
@@ -118,7 +144,7 @@ def run_nested(acc, c):
 
 def run_shard(tier, k, n, acc):
     import itertools
-    for c in shard_iter(itertools.chain(all_cases(tier), nested_cases()), k, n, acc):
+    for c in shard_iter(itertools.chain(all_cases(tier), nested_cases(), default_param_cases()), k, n, acc):
         if c.get("kind") == "nested":
             run_nested(acc, c)
         else:
@@ -133,10 +159,7 @@ def replay(v):
         from ..acc import Acc
         from ..prog import build, compare
         a = Acc(ID, 0, 1, 600)
-        d, ns, src = build(c["prog"], c["config"], c["is_async"], c.get("local_subs", False))
-        args = tuple(c["args"])
-        res = H.run_controlled(lambda: d(*args), prefix=tuple(v["prefix"]), is_async=False)
-        compare(a, c, c["prog"], args, res, ir.ref_eval(c["prog"], args), src)
-        return a.violations, res.trace
+        from ..prog import replay_built
+        return replay_built(a, v)
     res, viols = replay_case(c, MONITORS, v["prefix"])
     return viols, res.trace
